@@ -581,10 +581,15 @@ func (txn *Txn) commitAndSend() (func() error, error) {
 	// var b strings.Builder
 	// fmt.Fprintf(&b, "Read: %d. Commit: %d. reads: %v. writes: %v. Keys: ",
 	// 	txn.readTs, commitTs, txn.reads, txn.conflictKeys)
-	for _, e := range txn.pendingWrites {
+	// The duplicateWrites slice holds, in the order they were issued, the entries which were later
+	// displaced in pendingWrites by a write of the same key with another version. They must be
+	// written before the pending ones: a displaced entry can have the same key and version as a
+	// later pending entry (Set k@5, Set k@7, Set k@5), and the write which was issued last has to
+	// be applied last in order to win.
+	for _, e := range txn.duplicateWrites {
 		processEntry(e)
 	}
-	for _, e := range txn.duplicateWrites {
+	for _, e := range txn.pendingWrites {
 		processEntry(e)
 	}
 
